@@ -20,6 +20,7 @@ BIN = os.path.join(common.BUILD, "prod", "gsl_shim")
 KNOWN = {  # key in KNOWN_FINDINGS.jsonl -> (probe file prefix, classes of the shim that carry its signature)
     "distribution-parameter-hang": ("known-distparam-", ["hang@distribution-parameter"]),
     "derivative-cancellation-extreme-magnitude": ("known-cancel-", ["deriv-mismatch@extreme-magnitude", "hes-mismatch@extreme-magnitude"]),
+    "gsl-laguerre-3-special-case": ("known-gsl-laguerre3-", ["deriv-mismatch@gsl-laguerre3", "hes-mismatch@gsl-laguerre3"]),
 }
 
 
